@@ -1275,6 +1275,8 @@ func (c14) Gen(rng *rand.Rand, tier string, emit func(string)) {
 		emit(t.line(mode, c14RandQueries(rng, t, c14Ranks, 60)))
 		stat(fmt.Sprintf("gen:big-kind%d", kind))
 	}
+	// wave 3: the queries from several goroutines sharing the taxonomy and the closures built once (last: the draws of the cases above are unchanged)
+	c14GenConc(rng, tier, emit)
 }
 
 // ---------------------------------------------------------------------------------------------
@@ -2765,6 +2767,9 @@ var c14SeqField = map[string]int{"val": 1, "vf": 1, "rt": 2, "ig": 2, "rr": 2, "
 	"sw": 2, "sn": 1, "tr": 1, "tpath": 1}
 
 func (c14) Exec(c string) (string, []Fail) {
+	if strings.HasPrefix(c, "conc ") || strings.HasPrefix(c, "race conc ") { // the queries from several goroutines: c14_conc.go
+		return c14ExecConc(c)
+	}
 	mode, t, qs, ok := c14Parse(c)
 	if !ok {
 		caseTrivial = true
